@@ -447,9 +447,6 @@ func (f *e1func) runInlined(st *fstate, c *ast.CallExpr, callee *FuncInfo) *inlR
 			}
 			// result values: a returned local becomes res(i, call); any other operand is equated with it
 			for j, op := range s.term.A {
-				if j == g.errIdx {
-					continue
-				}
 				r := mk("res", fmt.Sprint(j), ct)
 				if op.K == "var" && g.isLocalObj(op.Obj) {
 					n2 := ns.clone()
